@@ -90,7 +90,7 @@ def contracts():
             ("before_stmt", "for d in self.identifiers.iter()", 2, "proof { reveal_strlit(\"*.\"); }"),
             ("before_stmt", "Err(", 1, "proof { lemma_first_legacy_unique(self.identifiers@, identifier_0@); lemma_first_exact_unique(self.identifiers@, crate::certificate::exact_name(identifier_0@, wildcard)); }")],
         rewrites=[("T-FMT", r"format!\((?P<f>\"\*\.\{identifier\}\")\)", lambda m: fmt_to_cat(m.group("f"), "crate::venv::cat2")),
-                  ("T-STR", r"d\.value\.trim_start_matches\(\"\*\.\"\)\.to_string\(\)", 'crate::venv::trim_start_matches_str(&d.value, "*.")')])
+                  ("T-STR", r"d\.value\.trim_start_matches\(\"\*\.\"\)\.(?:to_string|to_owned)\(\)", 'crate::venv::trim_start_matches_str(&d.value, "*.")')])
     c["call_challenge_hooks"] = FnSpec(ret="r", ghost=True, sig="""
     ensures final(w).clock == old(w).clock, final(w).admissions == old(w).admissions, final(w).net == old(w).net,
         final(w).fs.files == old(w).fs.files, final(w).fs.modes == old(w).fs.modes,
